@@ -37,6 +37,12 @@ def _event(ev):
         hook(ev)
 
 
+def _proto(scn):
+    """scn.proto: an int, or "None" (JSON / TLC cannot carry null)."""
+    p = scn.get('proto', 4)
+    return None if p in ('None', None) else p
+
+
 def _bind(cls):
     cls.__module__ = __name__
     cls.__qualname__ = cls.__name__
@@ -497,7 +503,7 @@ def run_graph(scn, nest_at=None):
     """Execute a "graph" scenario on the real code.  Returns obs (and the raw stream for replays)."""
     rp = _rp()
     n = len(scn['g'])
-    proto = scn.get('proto', 4)
+    proto = _proto(scn)
     top, kinds = build_graph(scn)
     obs = {'dump': 'ok', 'gs': [[] for _ in range(n)], 'loads': [], 'fresh': [], 'equal_to_pickle': 'na'}
     start = len(LOG)
@@ -525,6 +531,12 @@ def run_graph(scn, nest_at=None):
             obs['gs'][int(ev[1][1:]) - 1].append(ev[2])
     loads = [dict(L) for L in scn['loads']]
     if obs['dump'] != 'ok':
+        if op == 'rp':          # the oracle: does pickle refuse the graph as well?
+            try:
+                pickle.dumps(top, protocol=proto)
+                obs['equal_to_pickle'] = 'F'
+            except BaseException:  # noqa
+                obs['equal_to_pickle'] = 'T'
         bad = {'outcome': 'nodump', 'top': 'none', 'nodes': [], 'ss': []}
         obs['loads'] = [bad for _ in loads]
         obs['fresh'] = [bad for _ in loads]
@@ -622,7 +634,7 @@ def count_load_events(scn):
     rp = _rp()
     top, _ = build_graph(scn)
     try:
-        data = rp.dumps(top, protocol=scn.get('proto', 4), remote=scn['remote'])
+        data = rp.dumps(top, protocol=_proto(scn), remote=scn['remote'])
     except BaseException:  # noqa
         return 0
     return _count_events(rp, data)
@@ -735,7 +747,7 @@ def _vars_equal(a, b):
 
 def run_cls(scn):
     rp = _rp()
-    proto = scn.get('proto', 4)
+    proto = _proto(scn)
     chain, marker = scn['chain'], scn['marker']
     # an un-`seen` duck-typed class used for remote=False / standard operations must never have been dumped remotely
     flavour = 'seen' if (marker or scn['seen'] or (scn['op'] == 'rp' and scn['remote'])) else 'fresh'
@@ -896,6 +908,27 @@ def _menu():
                 d['kw'] = sorted(kwargs)
                 return d
 
+        class Interned:
+            """instances are interned by key in __new__: pickle protocol >= 2 goes through __new__ (and returns the
+            interned instance), protocols 0 and 1 reconstruct a detached copy"""
+            _pool = {}
+
+            def __new__(cls, key):
+                o = cls._pool.get(key)
+                if o is None:
+                    o = cls._pool[key] = object.__new__(cls)
+                    o.key = key
+                return o
+
+            def __getnewargs__(self):
+                return (self.key,)
+
+        class LateReg:
+            """non-opt-in class whose reducer is registered with copyreg.pickle() at run time"""
+
+            def __init__(self, a):
+                self.a, self.how = a, 'orig'
+
         class Holder:
             def m(self):
                 return 1
@@ -903,8 +936,14 @@ def _menu():
         def a_function(x):
             return x
 
-        for c in (Colour, Perm, DC, FDC, SDC, NT, MyError, ABCBase, GNA, Slots, Red, GS, KWGS, Holder):
+        for c in (Colour, Perm, DC, FDC, SDC, NT, MyError, ABCBase, GNA, Slots, Red, GS, KWGS, Holder, Interned, LateReg):
             _bind(c)
+        # registered AFTER pyworkers.remote_pickle has been imported (run_leaf imports it first)
+        import copyreg
+        if 'pyworkers.remote_pickle' not in sys.modules:
+            raise MachineryError('late copyreg registration before pyworkers.remote_pickle was imported')
+        copyreg.pickle(LateReg, _reduce_late)
+        copyreg.pickle(types.CodeType, _reduce_code)
         a_function.__module__ = __name__
         a_function.__qualname__ = 'a_function'
         _ME.a_function = a_function
@@ -936,9 +975,41 @@ def _menu():
         'simplenamespace': lambda: types.SimpleNamespace(a=1, b=[2]), 'getnewargs': lambda: M.GNA(1, 2),
         'slots_class': lambda: M.Slots(1, 'q'), 'reduce_class': lambda: M.Red(9), 'getstate_class': lambda: M.GS(),
         'kwgetstate_class': lambda: M.KWGS(), 'array': lambda: array.array('i', [1, 2, 3]),
+        'interned_newargs': lambda: M.Interned('k1'), 'late_class': lambda: M.LateReg(5),
+        'code_type': lambda: M.a_function.__code__,
         're_pattern': lambda: re.compile(r'a+b', re.I), 're_pattern_bytes': lambda: re.compile(br'\d+'),
         'union_type': lambda: int | str, 'complex': lambda: 1 + 2j,
     }
+
+
+def _make_late(a):
+    o = LateReg(a)          # noqa: F821  (bound to this module by _menu)
+    o.how = 'reducer'
+    return o
+
+
+def _reduce_late(x):
+    return (_make_late, (x.a,))
+
+
+def _load_code(b):
+    import marshal
+    return marshal.loads(b)
+
+
+def _reduce_code(c):
+    import marshal
+    return (_load_code, (marshal.dumps(c),))
+
+
+def stream_proto(data):
+    """Protocol of a pickle stream: the PROTO opcode's argument, else the highest protocol among its opcodes."""
+    best = 0
+    for op, arg, pos in pickletools.genops(data):
+        if op.name == 'PROTO':
+            return arg
+        best = max(best, op.proto)
+    return best
 
 
 def menu_kind(x):
@@ -973,6 +1044,10 @@ def canon(x, memo=None):
     memo[id(x)] = len(memo)
     t = type(x)
     tn = t.__module__ + '.' + t.__qualname__
+    if isinstance(x, types.CodeType):
+        return ('code', x.co_name, x.co_code, repr(x.co_consts), x.co_names, x.co_varnames)
+    if tn.endswith('.Interned'):
+        return ('interned', getattr(x, 'key', None), x is t._pool.get(getattr(x, 'key', None)), sorted(x.__dict__))
     if isinstance(x, types.MethodType):
         return ('method', x.__func__.__qualname__, canon(x.__self__, memo))
     if isinstance(x, dict):
@@ -1036,7 +1111,7 @@ def run_leaf(scn):
         _MENU = _menu()
     if scn['item'] not in _MENU:
         raise MachineryError('menu item %r of RemotePickleMC.tla has no value factory' % scn['item'])
-    proto = scn.get('proto', 4)
+    proto = _proto(scn)
     g = wrap_value(_MENU[scn['item']], scn['wrap'])
     obs = {'outcome': 'ok', 'equal_to_pickle': 'na', 'real_kind': menu_kind(_MENU[scn['item']]())}
     if scn.get('after', 'none') == 'fail':        # an earlier remote_pickle.loads on this thread raised (truncated stream)
@@ -1047,15 +1122,22 @@ def run_leaf(scn):
             raise
         except BaseException:  # noqa
             pass
+    mp = sp = None
     try:
-        mine = ('ok', canon(rp.loads(rp.dumps(g, protocol=proto, remote=scn['remote']))))
+        data = rp.dumps(g, protocol=proto, remote=scn['remote'])
+        mp = stream_proto(data)
+        mine = ('ok', canon(rp.loads(data)))
     except BaseException as e:  # noqa
         mine = ('raised', type(e).__name__)
         obs['outcome'] = 'raised:' + type(e).__name__
     try:
-        std = ('ok', canon(pickle.loads(pickle.dumps(g, protocol=proto))))
+        data = pickle.dumps(g, protocol=proto)
+        sp = stream_proto(data)
+        std = ('ok', canon(pickle.loads(data)))
     except BaseException as e:  # noqa
         std = ('raised', type(e).__name__)
+    obs['proto_same'] = 'T' if mp == sp else 'F'
+    obs['stream_protocols'] = [str(mp), str(sp)]
     obs['std_outcome'] = 'ok' if std[0] == 'ok' else 'raised:' + std[1]
     obs['equal_to_pickle'] = 'T' if (mine[0] == std[0] == 'raised' or mine == std) else 'F'
     return obs
@@ -1068,6 +1150,9 @@ def normalise(scn):
             nd.setdefault('fs', 'no')
     elif scn['t'] == 'leaf':
         scn.setdefault('after', 'none')
+        scn.setdefault('pclass', 'low' if scn.get('proto') in (0, 1) else 'high')
+        scn.setdefault('fbsame', scn.get('fb', True))
+        scn.setdefault('lowfails', False)
     return scn
 
 
